@@ -104,7 +104,7 @@ CMD_WORDS = list(get_operation_handlers().keys())  # every command word of the e
 ODD_WORDS = ["x", "xx", "e", "E", "cast", "Xx", "ELAPSEx"]
 NAME_ATOMS = ["a", "b c", "#", " # not a comment", '\\"', "\\\\", "한글 이름", "라이트닝 스피어", "체인 라이트닝 VI",
               "it's", "x3", "\t", "\r", "名前", "é", "😀", "---", "!debug", "\\n", "  ", "1e5", "\\\\\\\"", ".", "+"]
-FIXED_NAMES = ["", "a", "a b", "#x", 'a\\"b', "한글 이름", "\\\\", "a # b", "it's", "x3", "tab\there", "a\rb",
+FIXED_NAMES = ["", "a", "a b", "a  b", "a\tb", " a b", "a b ", "#x", 'a\\"b', "한글 이름", "\\\\", "a # b", "it's", "x3", "tab\there", "a\rb",
                "라이트닝 스피어", "체인 라이트닝 VI", "플레임 스윕", '\\"', "\\\\\\\"", "---", "\n---".replace("\n", "\\n")]
 NUMS = ["5", "-2", "+3", "1e3", ".5", "5.", "1.5e-3", "0", "00012", "1E+2", "-0", "2.5", "-.5e1", "3.e2", "210",
         "200.0", "1e-400", "123456789012345678901234567890", "0.1", "4.35", "1e22", "1e23", "9007199254740993",
@@ -442,7 +442,9 @@ def rand_meta(rng, depth=0):
         elif r < 0.4:
             d[k] = [rng.choice([1, 2.5, "x", "라이트닝", None, True]) for _ in range(rng.randint(0, 3))]
         elif r < 0.6:
-            d[k] = rng.choice(["archmagetc", "a: b", "# not comment", "\n---\nCAST", "multi\nline", "", " lead", "trail ", "'q'", '"dq"', "1e3", "null", "---"])
+            d[k] = rng.choice(["archmagetc", "a: b", "# not comment", "\n---\nCAST", "multi\nline", "", " lead", "trail ", "'q'", '"dq"', "1e3", "null", "---",
+                               # values whose last character is one of the characters of the closing `---` line
+                               "burst 0-", "260-", "a--", "x -", "tail-\n"])
         elif r < 0.8:
             d[k] = rng.choice([0, 270, -5, 2.5, 1e22, 1e-7, 40000])
         else:
